@@ -197,6 +197,39 @@ Section Match.
       destruct (f_edges _ _ _ F u v x I) as (Iu & Iv & Eg & Eh). rewrite (mget_id _ u Iu), (mget_id _ v Iv).
       apply Z.ltb_lt in E. rewrite Eg in E. unfold order_in in E, Eg. destruct (adj A u v) as [o|]; [|lia]. apply Z.eqb_eq. congruence.
   Qed.
+
+  (** gluing along the identity produces an ITS (no additive edge: a bond the template forms is absent in A) *)
+  Hypothesis HA : wf_hostb A = true.
+  Lemma fits_glue_some : exists T, glue A tpl m = Some T.
+  Proof.
+    destruct (glue A tpl m) as [T|] eqn:E; [eauto|]. exfalso.
+    apply (glue_none_iff A tpl m (f_wf _ _ _ F) fits_match_rc) in E.
+    destruct E as (u & v & x & hu & hv & o & I & E0 & E1 & E2 & Ea & _).
+    destruct (mget_id_inv _ _ _ E1) as [-> _]. destruct (mget_id_inv _ _ _ E2) as [-> _].
+    destruct (f_edges _ _ _ F u v x I) as (_ & _ & Eg & _).
+    destruct (order_in_pos A u v o HA Ea). lia.
+  Qed.
+
+  (** an atom the template does not contain keeps the substrate's tuple on the product side: if it differs from B's
+      in hydrogen count or charge, the decomposition of the glued ITS is NOT (A, B) *)
+  Lemma fits_outside_not_regen T n x y :
+    glue A tpl m = Some T -> ~ In n (node_ids tpl) -> label A n = Some x -> label B n = Some y ->
+    a_hc x <> a_hc y \/ a_ch x <> a_ch y -> regen_exact T A B = false.
+  Proof.
+    intros Hg NI Ex Ey Hd. destruct (regen_exact T A B) eqn:ER; [exfalso|reflexivity].
+    pose proof (f_wf _ _ _ F) as Hwr. pose proof fits_match_rc as Hm.
+    c03 (unglued_node A tpl m T) as UN. specialize (UN n). rewrite Ex in UN. simpl in UN.
+    assert (ET : label T n = Some (IN x x 0 None)) by (apply UN; unfold m; rewrite id_map_snd; exact NI).
+    unfold regen_exact, its_decompose in ER. apply andb_prop in ER. destruct ER as [_ ER].
+    unfold mol_eqb in ER. apply andb_prop in ER. destruct ER as [ER _]. apply andb_prop in ER. destruct ER as [ER _].
+    apply andb_prop in ER. destruct ER as [ER _]. unfold nodes_sub in ER. rewrite forallb_forall in ER.
+    assert (I : In (n, dec_node x) (gnodes (dec_side iH eH T))).
+    { change (gnodes (dec_side iH eH T)) with (map (fun p : N * inode => (fst p, dec_node (iH (snd p)))) (gnodes T)).
+      apply in_map_iff. exists (n, IN x x 0 None). split; [reflexivity|]. apply assoc_in. exact ET. }
+    specialize (ER _ I). simpl in ER. rewrite molg_of_label, Ey in ER. simpl in ER.
+    unfold sel3_eqb, sel3 in ER. simpl in ER. apply andb_prop in ER. destruct ER as [ER E3]. apply andb_prop in ER. destruct ER as [_ E2].
+    apply Z.eqb_eq in E2. apply Z.eqb_eq in E3. destruct Hd; contradiction.
+  Qed.
 End Match.
 
 Section Regen.
